@@ -23,7 +23,7 @@ HEADER = ("From Coq Require Import ZArith QArith List Bool PrimFloat.\n"
 
 TOL = 1e-8
 DTS = [(1.0, "s"), (2.0, "s"), (0.5, "s"), (0.81327, "s"), (1.0 / 3, "s"), (3.0, "ms"), (2.2, "m"), (0.1, "s"),
-       (7.0, "s"), (250.0, "us")]
+       (7.0, "s"), (250.0, "us"), (0.72, "s"), (1.1, "s"), (2.5, "ms"), (0.01, "s")]
 
 
 # ------------------------------------------------------------------ literals
@@ -155,7 +155,9 @@ def make_analyzer(d, T, E):
     from nitime.analysis import EventRelatedAnalyzer
     v = d.get("variant", {})
     L, off = d["len"], d["offset"]
-    if v.get("len_as") == "float":
+    if v.get("len_as") == "float" and d["kind"] not in ("eta_ev", "ets_ev"):
+        # a fractional len_et is truncated (the baseline test passes one with coded events); with an Events object
+        # __init__ sizes an unused array with abs(len_et) and raises TypeError - documented type is int, not used here
         L = L + 0.5
     elif v.get("len_as") == "npint":
         L = np.int64(L)
@@ -305,8 +307,77 @@ def planted_rows(d, bc=False):
     return rows
 
 
-def close(a, b):
-    return abs(a - b) <= TOL * (1 + abs(b))
+def data_scale(d):
+    """max |data| of the case: every tolerance of the oracle is relative to it"""
+    return Fraction(max((abs(float.fromhex(x)) for r in d.get("data", []) for x in r), default=0.0))
+
+
+def close(a, b, sc=Fraction(1)):
+    return abs(a - b) <= Fraction(TOL) * sc
+
+
+def definition_rows(d, dt_ps):
+    """event-triggered average and squared standard error straight from their definitions (Fractions on the
+    input data; nothing of nitime is used): [channel][type] -> (eta list, sem^2 list or None).
+    None when a window leaves the series (then the property demands nothing)."""
+    L, off = d["len"], d["offset"]
+    bc = d.get("bc", False)
+    out = []
+    for ch, row in enumerate(d["data"]):
+        y = [Fraction(float.fromhex(x)) for x in row]
+        n = len(y)
+        if d["kind"] in ("eta_ev", "ets_ev"):
+            tobs = d.get("times_obs", d["times_ps"])
+            groups = [[int(Fraction(t, dt_ps)) for t in tobs]]       # int() truncates toward zero
+        else:
+            ev = chan_events(d, ch)
+            groups = [[i for i, c in enumerate(ev) if c == t] for t in sorted(set(c for c in ev if c != 0))]
+        r = []
+        for idxs in groups:
+            if not idxs or any(not (0 <= i + off and i + off + L <= n) for i in idxs):
+                return None
+            segs = [[y[i + off + k] for k in range(L)] for i in idxs]
+            if bc:
+                segs = [[x - sg[0] for x in sg] for sg in segs]
+            m = len(segs)
+            eta = [sum(sg[k] for sg in segs) / m for k in range(L)]
+            sem2 = None if m < 2 else [sum((sg[k] - eta[k]) ** 2 for sg in segs) / (m * (m - 1)) for k in range(L)]
+            r.append((eta, sem2))
+        out.append(r)
+    return out
+
+
+def oracle_definition(d, o, dt_ps, key, sc):
+    """eta / ets against the definition, for any data (planted or not) whose windows lie inside the series"""
+    if d["kind"] not in ("eta", "ets", "eta_ev", "ets_ev") or o.get("t") != "arr" or not dt_ps:
+        return None
+    if d["kind"] in ("eta_ev", "ets_ev") and d.get("t0_in"):
+        return None
+    rows = definition_rows(d, dt_ps)
+    if rows is None or len(set(len(r) for r in rows)) != 1:
+        return None
+    vals = unhex(o["vals"])
+    L = d["len"]
+    flat = [(ch, ti, k) for ch in range(len(rows)) for ti in range(len(rows[ch])) for k in range(L)]
+    if len(flat) != len(vals):
+        return Fail(key + "/definition", "size of the result", len(vals), len(flat))
+    is_ets = d["kind"] in ("ets", "ets_ev")
+    for (ch, ti, k), v in zip(flat, vals):
+        eta, sem2 = rows[ch][ti]
+        if is_ets:
+            if sem2 is None:
+                continue
+            bad = not (v == v) or v < 0
+            if not bad:
+                diff = abs(Fraction(v) ** 2 - sem2[k])
+                bad = diff > Fraction(TOL) ** 2 * sc * sc and diff > Fraction(1, 10 ** 9) * sem2[k]
+            if bad:
+                return Fail(key + "/definition", "standard error differs from sqrt(var/n) of the event-triggered windows "
+                            "(channel %d, type index %d, lag index %d)" % (ch, ti, k), v, float(sem2[k]) ** 0.5)
+        elif not (v == v) or not close(Fraction(v), eta[k], sc):
+            return Fail(key + "/definition", "average differs from the mean of the event-triggered windows "
+                        "(channel %d, type index %d, lag index %d)" % (ch, ti, k), v, float(eta[k]))
+    return None
 
 
 def oracle(d, o, dt_ps):
@@ -314,8 +385,16 @@ def oracle(d, o, dt_ps):
     k = d["kind"]
     key = "C19/%s" % {"fir": "FIR", "eta": "eta", "ets": "ets", "et_data": "et_data", "eta_ev": "eta-events",
                       "ets_ev": "ets-events", "design": "fir_design_matrix"}[k]
-    claims = d.get("claims", [])
-    if k == "design" or not claims:
+    claims = list(d.get("claims", []))
+    if k == "design":
+        return None
+    sc = data_scale(d)
+    if k in ("eta_ev", "ets_ev") and d.get("times_obs") is not None and d["times_obs"] != d["times_ps"]:
+        claims = []       # the float form of the event times was rounded to other picoseconds (C01's matter)
+    f = oracle_definition(d, o, dt_ps, key, sc)
+    if f is not None:
+        return f
+    if not claims:
         return None
     if o["t"] != "arr" and o["t"] != "et":
         return Fail(key + "/no-result", "no estimate returned for a design inside the series: %s" % (o.get("e") or o.get("what")),
@@ -339,7 +418,7 @@ def oracle(d, o, dt_ps):
                 for ti, it in enumerate(o["items"][ch]):
                     for s in it["segs"]:
                         v = unhex(s)
-                        if len(v) != L or any(not close(Fraction(x), w) for x, w in zip(v, want[ch][ti])):
+                        if len(v) != L or any(not close(Fraction(x), w, sc) for x, w in zip(v, want[ch][ti])):
                             return Fail(key + "/segment", "an event-triggered segment differs from the planted response "
                                         "(channel %d, type index %d)" % (ch, ti), v, [float(w) for w in want[ch][ti]])
         return None
@@ -357,17 +436,17 @@ def oracle(d, o, dt_ps):
         if k in ("ets", "ets_ev"):
             cnt = d["planted"]["counts"]
             for (ch, ti, kk, w), v in zip(flat, vals):
-                if cnt[ch][ti] >= 2 and not (abs(v) <= TOL):
+                if cnt[ch][ti] >= 2 and not (abs(v) <= TOL * float(sc)):
                     return Fail(key + "/nonzero", "standard error not zero for identical, non-overlapping responses "
                                 "(channel %d, type index %d, lag %d)" % (ch, ti, kk), v, 0.0)
             return None
         negs = []
         for (ch, ti, kk, w), v in zip(flat, vals):
-            if not (v == v) or not close(Fraction(v), w):
+            if not (v == v) or not close(Fraction(v), w, sc):
                 code = None
                 if k == "fir":
                     code = sorted(set(c for c in chan_events(d, ch) if c != 0))[ti]
-                if code is not None and code < 0 and close(Fraction(v), -w):
+                if code is not None and code < 0 and close(Fraction(v), -w, sc):
                     negs.append((ch, ti, kk, v, float(w), code))
                     continue
                 return Fail(key + "/response", "estimate differs from the planted response (channel %d, type index %d, "
@@ -382,7 +461,7 @@ def oracle(d, o, dt_ps):
             return Fail(key + "/events-vs-coded", "coded-series input gave no result", p, "a result")
         pv = unhex(p["vals"])
         if squeeze_shape(p["shape"]) != o["shape"] or len(pv) != len(vals) or \
-                any(not (a == a and close(Fraction(a), Fraction(b))) for a, b in zip(vals, pv)) or p["t0"] != o["t0"]:
+                any(not (a == a and close(Fraction(a), Fraction(b), sc)) for a, b in zip(vals, pv)) or p["t0"] != o["t0"]:
             return Fail(key + "/events-vs-coded", "event-time input and event-coded input give different results",
                         {"times": vals, "t0": o["t0"]}, {"coded": pv, "t0": p["t0"]})
     if "linear" in claims:
@@ -393,7 +472,7 @@ def oracle(d, o, dt_ps):
         a, b = Fraction(lin["a"]), Fraction(lin["b"])
         for v, x1, x2 in zip(vals, unhex(r1["vals"]), unhex(r2["vals"])):
             w = a * Fraction(x1) + b * Fraction(x2)
-            if not close(Fraction(v), w):
+            if not close(Fraction(v), w, sc + abs(a) * data_scale({"data": lin["y1"]}) + abs(b) * data_scale({"data": lin["y2"]})):
                 return Fail(key + "/linear", "estimate of a*y1 + b*y2 is not a*est(y1) + b*est(y2)", v, float(w))
     return None
 
@@ -472,7 +551,47 @@ def base(rng, kind, nch, is1d):
     d = {"kind": kind, "is1d": is1d, "dt": dt, "unit": unit, "ev2d": False}
     if rng.random() < 0.15:
         d["t0_in"] = float(rng.randint(1, 40))
+    # alternative but equivalent input forms (about a third of the cases)
+    v = {}
+    if rng.random() < 0.35:
+        v["layout"] = rng.choice(["F", "strided", "derived", "C"])
+        v["len_as"] = rng.choice(["int", "float", "npint"])
+        v["off_as"] = rng.choice(["int", "npint"])
+        v["call"] = rng.choice(["kw", "pos"])
+        v["ev_dtype"] = rng.choice(["int", "float", "F"])
+        v["ev_form"] = rng.choice(["ps", "sec_float", "timearray"])
+    if rng.random() < 0.25:
+        v["ts_by"] = "rate"
+        d["rate"] = rng.choice(RATES)
+        d["unit"] = "s"
+    if v:
+        d["variant"] = v
     return d
+
+
+def pick_scale(rng):
+    """data magnitude: 2^s with s in -60..40 (exact scaling of every planted value), mostly 2^0"""
+    r = rng.random()
+    if r < 0.55:
+        return 0
+    if r < 0.7:
+        return rng.choice([-60, -40, -27, 40, 30, 17])
+    return rng.randint(-60, 40)
+
+
+def values(rng, n, s, integer=False, noise=False):
+    f = 2.0 ** s
+    if integer:
+        return [float(rng.randint(-64, 64)) for _ in range(n)]
+    if noise:
+        dc = rng.choice([0.0, 0.0, 3.0, -1000.5, 64.0])
+        return [(dyad(rng, -200, 200, 16) + dc) * f for _ in range(n)]
+    return [dyad(rng) * f for _ in range(n)]
+
+
+def set_int_layout(rng, d):
+    """integer-valued data may also arrive as an int64 array"""
+    d.setdefault("variant", {})["layout"] = "int"
 
 
 def gen_fir(rng, big):
@@ -490,7 +609,9 @@ def gen_fir(rng, big):
     evs = [place_overlapping(rng, n, L, off, codes, inside) for _ in range(nch if ev2d else 1)]
     if ev2d and rng.random() < 0.1:
         evs[-1] = [0 if c == codes[0] and len(codes) > 1 else c for c in evs[-1]]   # ragged type count
-    resp = [{c: [dyad(rng) for _ in range(L)] for c in codes} for _ in range(nch)]
+    sexp = pick_scale(rng)
+    isint = rng.random() < 0.07
+    resp = [{c: values(rng, L, sexp, isint) for c in codes} for _ in range(nch)]
     planted = mode < 0.9
     data = []
     for ch in range(nch):
@@ -498,7 +619,10 @@ def gen_fir(rng, big):
         if planted:
             data.append(synth(ev, resp[ch], L, off, n))
         else:
-            data.append([dyad(rng, -200, 200, 16) for _ in range(n)])
+            data.append(values(rng, n, sexp, isint, noise=True))
+    if isint:
+        set_int_layout(rng, d)
+    d["scale_exp"] = sexp
     d.update({"data": [hexs(r) for r in data], "events": evs if ev2d else evs[0], "ev2d": ev2d, "len": L, "offset": off,
               "bc": rng.random() < 0.3, "zs": rng.random() < 0.3})
     claims = []
@@ -535,12 +659,17 @@ def gen_avg(rng, big, kind):
     else:
         evs = [place_overlapping(rng, n, L, off, codes, inside=mode < 0.9) for _ in range(nch if ev2d else 1)]
         sep = False
-    resp = [{c: [dyad(rng) for _ in range(L)] for c in codes} for _ in range(nch)]
+    sexp = pick_scale(rng)
+    isint = rng.random() < 0.07
+    resp = [{c: values(rng, L, sexp, isint) for c in codes} for _ in range(nch)]
     planted = rng.random() < 0.85
     data = []
     for ch in range(nch):
         ev = evs[ch] if ev2d else evs[0]
-        data.append(synth(ev, resp[ch], L, off, n) if planted else [dyad(rng, -200, 200, 16) for _ in range(n)])
+        data.append(synth(ev, resp[ch], L, off, n) if planted else values(rng, n, sexp, isint, noise=True))
+    if isint:
+        set_int_layout(rng, d)
+    d["scale_exp"] = sexp
     d.update({"data": [hexs(r) for r in data], "events": evs if ev2d else evs[0], "ev2d": ev2d, "len": L, "offset": off,
               "bc": rng.random() < 0.4 and kind != "et_data", "zs": rng.random() < 0.3})
     claims = []
@@ -575,9 +704,14 @@ def gen_events(rng, big, kind):
     if not idx:
         ev[max(0, -off)] = code
         idx = [max(0, -off)]
-    resp = [{code: [dyad(rng) for _ in range(L)]} for _ in range(nch)]
+    sexp = pick_scale(rng)
+    isint = rng.random() < 0.07
+    resp = [{code: values(rng, L, sexp, isint)} for _ in range(nch)]
     planted = rng.random() < 0.85
-    data = [synth(ev, resp[ch], L, off, n) if planted else [dyad(rng, -200, 200, 16) for _ in range(n)] for ch in range(nch)]
+    data = [synth(ev, resp[ch], L, off, n) if planted else values(rng, n, sexp, isint, noise=True) for ch in range(nch)]
+    if isint:
+        set_int_layout(rng, d)
+    d["scale_exp"] = sexp
     d.update({"data": [hexs(r) for r in data], "len": L, "offset": off, "bc": rng.random() < 0.4, "zs": rng.random() < 0.3})
     d["events_coded"] = ev
     d["idx"] = idx
@@ -619,6 +753,74 @@ def finish_events(rng, d, dt_ps):
     d["times_ps"] = t
 
 
+def gen_large(rng, quick):
+    """the far end of the quantifier: response lengths up to 32 with 3 event types, long series (lengths just
+    above powers of two, primes), many events, event times beyond 2^53 ps.  FIR cases are checked by the
+    planted-truth oracle only (oracle_only: no kernel evaluation); the averaging cases are cheap enough for K."""
+    out = []
+    ns = [1025, 2049, 4097, 1531, 509, 8193]
+    # FIR, overlapping, 3 types x len 32 (96 columns) and other sizes
+    for j, (L, nt) in enumerate([(32, 3), (31, 3), (17, 3), (32, 2), (2, 3), (23, 1)] if quick else
+                                [(32, 3), (31, 3), (17, 3), (32, 2), (2, 3), (23, 1), (32, 3), (29, 3), (13, 2), (32, 1)]):
+        n = ns[j % len(ns)]
+        off = [0, 3, L + 1, 1][j % 4]
+        codes = pick_codes(rng, nt, allow_neg=(j % 3 == 2))
+        nch = 1 + (j % 2)
+        d = base(rng, "fir", nch, nch == 1)
+        sexp = pick_scale(rng)
+        ev = [0] * n
+        nev = max(4 * nt * L // 3, n // (2 + j % 3))       # many events (up to >2000), heavy overlap
+        for p_ in rng.sample(range(0, n - off - L + 1), min(nev, n - off - L + 1)):
+            ev[p_] = rng.choice(codes)
+        for c in codes:
+            if c not in ev:
+                ev[rng.randrange(0, n - off - L)] = c
+        resp = [{c: values(rng, L, sexp) for c in codes} for _ in range(nch)]
+        data = [synth(ev, resp[ch], L, off, n) for ch in range(nch)]
+        d.update({"data": [hexs(r) for r in data], "events": ev, "ev2d": False, "len": L, "offset": off, "bc": False,
+                  "zs": bool(j % 2), "scale_exp": sexp, "oracle_only": True,
+                  "planted": {"codes": codes, "resp": [{str(c): hexs(r[c]) for c in codes} for r in resp]}})
+        d["claims"] = ["axis"] + (["exact"] if full_rank(ev, L, off) else [])
+        d["class"] = "large/fir/len%d/types%d/n%d" % (L, nt, n)
+        out.append(d)
+    # eta / ets on coded series and on event times, separated, long
+    for j, kind in enumerate(["eta", "ets", "eta_ev", "ets_ev", "eta_ev", "eta"] if quick else
+                             ["eta", "ets", "eta_ev", "ets_ev", "eta_ev", "eta", "ets_ev", "ets", "eta_ev", "et_data"]):
+        L = [32, 31, 32, 17, 2, 29][j % 6]
+        n = [1025, 2049, 4097, 1531, 2049, 1025][j % 6]
+        isev = kind.endswith("_ev")
+        off = ([0, -1, 2, -L + 1] if isev else [0, 3, 1])[j % (4 if isev else 3)]
+        codes = [1] if isev else pick_codes(rng, 3, allow_neg=(j % 2 == 1))
+        d = base(rng, kind, 1, True)
+        if isev:
+            d.pop("t0_in", None)
+            if j % 2 == 0:
+                d["dt"], d["unit"] = 2.2, "m"            # event times far beyond 2^53 ps
+                d.get("variant", {}).pop("ts_by", None)
+        sexp = pick_scale(rng)
+        ev = place_separated(rng, n, L, off, codes)
+        resp = [{c: values(rng, L, sexp, integer=(j % 3 == 0)) for c in codes}]
+        data = [synth(ev, resp[0], L, off, n)]
+        d.update({"data": [hexs(r) for r in data], "len": L, "offset": off, "bc": bool(j % 2), "zs": False,
+                  "scale_exp": sexp, "ev2d": False})
+        types = sorted(set(c for c in ev if c != 0))
+        cnt = [[sum(1 for c in ev if c == t) for t in types]]
+        d["planted"] = {"codes": codes, "resp": [{str(c): hexs(resp[0][c]) for c in codes}], "counts": cnt}
+        if isev:
+            d["events_coded"] = ev
+            d["idx"] = [i for i, c in enumerate(ev) if c]
+            d["mode"] = "multiple" if j % 3 else "fraction"
+            d["claims"] = ["axis", "exact"] + (["equiv"] if off >= 0 else [])
+        else:
+            d["events"] = ev
+            d["claims"] = ["axis", "exact"]
+            if kind == "et_data":
+                d["bc"] = False
+        d["class"] = "large/%s/len%d/n%d" % (kind, L, n)
+        out.append(d)
+    return out
+
+
 def gen_design(rng, big):
     L = rng.randint(1, 8)
     n = rng.randint(L, 40)
@@ -643,11 +845,14 @@ def add_linear(rng, d):
     n = len(d["data"][0])
     a, b = rng.choice([2, -3, 0.5, 4]), rng.choice([1, -1, 0.25, 3])
     y1 = [[float.fromhex(x) for x in r] for r in d["data"]]
-    y2 = [[dyad(rng, -100, 100, 8) for _ in range(n)] for _ in d["data"]]
+    f = 2.0 ** d.get("scale_exp", 0)
+    y2 = [[dyad(rng, -100, 100, 8) * f for _ in range(n)] for _ in d["data"]]
     comb = [[a * u + b * v for u, v in zip(p, q)] for p, q in zip(y1, y2)]
     dd = dict(d, data=[hexs(r) for r in comb], claims=["linear"],
               linear={"a": a, "b": b, "y1": [hexs(r) for r in y1], "y2": [hexs(r) for r in y2]})
     dd.pop("planted", None)
+    if dd.get("variant", {}).get("layout") == "int":
+        dd["variant"] = dict(dd["variant"], layout="C")
     dd["class"] = d["class"] + "/linear"
     return dd
 
@@ -669,7 +874,7 @@ def prepare(d, rng=None, force=False):
 def make_case(d, rng=None):
     prepare(d, rng)
     o, dt_ps, calls = run_case(d)
-    coq = case_coq(d, o, dt_ps, calls)
+    coq = None if d.get("oracle_only") else case_coq(d, o, dt_ps, calls)
     rp = {"input": d, "observed": o, "dt_ps": dt_ps}
     c = Case(coq or "", rp, d.get("class", d["kind"]), nontrivial=(o["t"] in ("arr", "et", "design")))
     c.in_k = coq is not None
@@ -758,6 +963,7 @@ def run(ctx):
         inputs.append(gen_events(rng, big, "ets_ev"))
     for _ in range(nd):
         inputs.append(gen_design(rng, big))
+    inputs.extend(gen_large(rng, ctx.quick))
     cases = [make_case(d, rng) for d in inputs]
     kcases = [c for c in cases if c.in_k]
     shard = ctx.scale(60, 160)
@@ -770,7 +976,7 @@ def run(ctx):
     nrec = sum(1 for c in cases if c.replay["input"].get("pinv_source") == "recorded")
     for c in cases:
         f = oracle(c.replay["input"], c.replay["observed"], c.replay["dt_ps"])
-        if f is None and not c.in_k:
+        if f is None and not c.in_k and not c.replay["input"].get("oracle_only"):
             f = Fail("C19/%s/unexpected-outcome" % c.replay["input"]["kind"],
                      "the call ended in a way the model has no counterpart for", c.replay["observed"],
                      "a result or ValueError/IndexError")
